@@ -23,6 +23,16 @@ theorem setW_of_owned {W : Addr → Prop} {m : Mem} {a : Addr}
   simp only [hk, List.all_eq_true] at h2
   exact sliceW_of_owned (fun x hx => hW x (.inr hx)) (h2 kv hkv)
 
+theorem setCopy_addr {m : Mem} {own : Owner} {a : Addr} {r : Mem × Addr}
+    (h : setCopy m own a = some r) : r.2 = m.length := by
+  unfold setCopy at h
+  cases hk : kvsOf m a with
+  | none => simp [hk] at h
+  | some kvs =>
+    simp only [hk, setNew, Option.map_eq_some_iff] at h
+    obtain ⟨m2, _, e⟩ := h
+    rw [← e]; rfl
+
 theorem kvsOf_freeze (m : Mem) (x a : Addr) : kvsOf (freeze m x) a = kvsOf m a := by
   unfold freeze
   cases hm : m[x]? with
@@ -108,8 +118,8 @@ theorem stepApi_writes {st st' : St} {c : Api} (hr : respectful st (.api c) = tr
     simp only [stepApi] at h
     opt_cases h
     rename_i m2 hm2
-    exact (pres_setAddAll _ _ _ _ (pres_alloc (preserves_alloc' _ _ _ _) _ _)
-      (setW_new (preserves_alloc' _ _ _ _) _) hm2).1
+    exact pres_publish (pres_setAddAll _ _ _ _ (pres_alloc (preserves_alloc' _ _ _ _) _ _)
+      (setW_new (preserves_alloc' _ _ _ _) _) hm2).1 (.inr (by simp [setNew]))
   | asValueSet v hs =>
     simp only [stepApi] at h
     opt_cases h
@@ -120,7 +130,9 @@ theorem stepApi_writes {st st' : St} {c : Api} (hr : respectful st (.api c) = tr
     simp only [stepApi] at h
     opt_cases h
     rename_i r hr'
-    exact pres_setCopy (Ext.refl _ _) (a' := r.2) hr'
+    refine pres_publish (pres_setCopy (Ext.refl _ _) (a' := r.2) hr') (.inr ?_)
+    have := setCopy_addr hr'
+    simp only [this]; exact Nat.le_refl _
   | vsCopy g =>
     simp only [stepApi] at h
     opt_cases h
